@@ -3,6 +3,9 @@
 from .model import (Attr, BUILTINS, ComplexType, Content, ElementRef, Facets, GlobalElement, Group, INT_BUILTINS, LocalElement,
                     Message, Names, Operation, Part, SchemaFile, SchemaSet, SimpleType, STRING_BUILTINS, TypeRef, Wsdl, Name)
 
+import itertools as _itertools
+_OP_NAME_TURN = _itertools.count()
+
 URI_POOL = [
     "http://zv.test/schemas/alpha", "http://zv.test/schemas/bravo", "urn:zv:charlie", "http://zv.test/2024/delta",
     "http://zv.test/ns/echo/", "https://example.org/foxtrot", "http://zv.test/golf-types", "urn:zv:data:hotel",
@@ -263,6 +266,12 @@ class Gen:
             else:
                 items.append(self.make_leaf(fidx, taken))
             i += 1
+        if depth == 0 and cfg.get("p_wide_content") and r.random() < cfg["p_wide_content"]:
+            # a type with some thirty members (a request with many plain fields)
+            for _ in range(r.randrange(24, 33)):
+                items.append(LocalElement(self.names.fresh(taken), TypeRef(r.choice(["string", "int", "boolean", "long", "double", "date"])),
+                                          r.choice([0, 1, 1]), 1))
+            self.features.add("wide-type")
         group = Group("sequence", *self.group_occurs(), items) if items or r.random() < 0.5 else None
         attrs = []
         if r.random() < cfg["p_attrs"]:
@@ -850,9 +859,14 @@ class Gen:
             r3 = _random.Random("op-name:" + op_name.xml + str(len(w.operations)))
             if r3.random() < self.cfg.get("p_prelude_op_name", 0.12):
                 # operations named like prelude / reserved type names (Default, Option, ...): envelope and method names derive from it
-                word = r3.choice(["default", "option", "string", "vec", "rc", "result", "box", "self", "new", "new", ("c", "to", "f"), ("e", "mail"),
-                                  ("x", "coordinate"), ("get", "a", "b"), Name(("http", "ping"), "pascal", "HTTPPing"),
-                                  Name(("xml", "export"), "pascal", "XMLExport")])
+                pool = ["default", "option", "string", "vec", "rc", "result", "box", "self", "new", "new", ("c", "to", "f"), ("e", "mail"),
+                        ("x", "coordinate"), ("get", "a", "b"), Name(("http", "ping"), "pascal", "HTTPPing"),
+                        Name(("xml", "export"), "pascal", "XMLExport")]
+                if self.cfg.get("op_names_in_turn"):
+                    # one after the other across the programs of a run, so that every one of them is met whatever the seed
+                    word = pool[next(_OP_NAME_TURN) % len(pool)]
+                else:
+                    word = r3.choice(pool)
                 if isinstance(word, Name):
                     # leading acronyms: snake_case(PascalCase(name)) is not snake_case(name) (names with digits are left out: where a
                     # word ends next to a digit is a matter of taste, get_v2_data / get_v_2_data)
